@@ -32,6 +32,7 @@ RootTree(cn, fn, mn, bn, inner, extra) == Root(NSM, <<>>, MapOf(
 DiffOf(dv, cn) ==
     CASE dv = "none" -> D!DRoot(D!None, D!None, <<>>)
       [] dv = "rename" -> D!DRoot(D!None, D!None, ("c ia" :> D!DNode(D!DKey("c", "ia", "", 0), D!Edit(cn, "n/Renamed"), D!None, <<>>)))
+      [] dv = "deep" -> D!DRoot(D!None, D!None, ("c ia$C_3" :> D!DNode(D!DKey("c", "ia$C_3", "", 0), D!Edit("Inner", "De$ep"), D!None, <<>>)))
       [] dv = "doc" -> D!DRoot(D!None, D!None, ("c ia" :> D!DNode(D!DKey("c", "ia", "", 0), D!None, D!None,
                             ("f f_1 I" :> D!DNode(D!DKey("f", "f_1", "I", 0), D!None, D!Add(<<"field doc">>), <<>>)))))
 Cal(holes, bridge, inner) == Root(NSC, <<>>, MapOf(
@@ -52,7 +53,7 @@ Init == stage = "start" /\ in = <<>> /\ val = <<>> /\ unm = <<>> /\ calr = <<>>
 Pick ==
     /\ stage = "start"
     /\ \E cn \in {"n/A", "ia"}, fn \in {"f_1", "count"}, mn \in {"m_1", "run"}, bn \in {U2, "n/B"}, inner \in {"no", "nested", "flat"}, extra \in {"no", "class", "field"},
-          dv \in {"none", "rename", "doc"}, version \in {"v1", "v2", "vX"}, holes \in BOOLEAN, bridge \in {"none", "named", "unnamed"} :
+          dv \in {"none", "rename", "doc", "deep"}, version \in {"v1", "v2", "vX"}, holes \in BOOLEAN, bridge \in {"none", "named", "unnamed"} :
         LET root0 == RootTree(cn, fn, mn, bn, inner, extra)
             root == IF bridge = "named" THEN [root0 EXCEPT !.kids["c ia"].kids = @ @@ ("m m_9 ()V" :> Method(<<"m_9", "bridgeName">>, "()V", <<>>, <<>>))] ELSE root0
             files == <<"v1.tiny", "v1#v2.tinydiff">>
